@@ -130,6 +130,9 @@ fn read_burst(rng: &mut Rng, d: &mut Driver, w: &mut World, rep: &mut WorkerRepo
             5 => Some(json!(format!("0x{:x}", latest + 2))),
             6 => Some(json!(format!("0x{:x}", latest + 2 + rng.below(300)))),
             7 => Some(json!(format!("0x{:x}", rng.below(latest + 1)))),
+            // heights around the rule-change heights of signet and main net, and far beyond: a simulation
+            // "as of" a height with other rules must not leave anything behind
+            8 => Some(json!(format!("0x{:x}", *rng.pick(&[274_999u64, 275_000, 275_001, 923_368, 923_369, 929_000, 5_000_000, u64::MAX])))),
             _ => None,
         };
         let with_block = |mut params: Vec<Value>| -> Value {
